@@ -726,7 +726,7 @@ func TestC12(t *testing.T) {
 	ck := hx.Check[c12Case]{
 		Property: "C12", Part: "files",
 		Rule:  "generated valid links/layouts (arbitrary strings, nil/empty/populated collections), 0-2 signatures, both wrappers: (roundtrip) dump -> load (both loaders) -> dump, payload, signatures and bytes equal; (corrupt) one JSON-tree mutation (drop/rename/add-unknown/retype/nullify/tweak/empty/duplicate/swap) at a node of the file or of the (decoded) payload, classified by a schema table into must-fail or unasserted; (truncate) cut at a random offset; (validator) exactly one format rule broken (25 kinds) or none; plus a sweep of every applicable mutation at every node of a fixed link and layout in both wrappers; non-trivial = every case except skipped ones; distinct by (wrapper, kind, mutation path and kind, content)",
-		Cases: hx.Pick(1500, 50000),
+		Cases: hx.Pick(1500, 300000),
 		Gen:   c12Gen, Run: c12RunWithMut,
 	}
 	if hx.ReplayRequested() == "" {
